@@ -326,6 +326,9 @@ type Frame struct {
 	File string `json:"file"` // "" = the program's file, "<builtin>" = a built-in frame
 	Line int32  `json:"line"` // -1 = not specified by the generator
 	Col  int32  `json:"col"`
+	// ColMax > Col: the operation is a two-word operator ("not in") written at
+	// columns Col..ColMax; any column of the operator identifies it.
+	ColMax int32 `json:"colmax,omitempty"`
 }
 
 type FuncLNT struct {
@@ -488,7 +491,8 @@ func (g *gen) openParenAndMove() {
 
 var linkKinds = []string{"def", "def", "lambda", "comp", "dictcomp", "sorted", "min", "max", "closure", "callkw", "callvar", "ifblock", "forblock"}
 var failKinds = []string{"call", "binop", "unop", "index", "attr", "unpack", "local", "global", "fail",
-	"setindex", "divzero", "iterate", "slice", "cmp", "in", "callkw", "setfield", "augassign", "argbind"}
+	"setindex", "divzero", "iterate", "slice", "cmp", "in", "callkw", "setfield", "augassign", "argbind",
+	"dictkey", "compiterate", "percent", "notin", "default", "methodcall"}
 
 func fname(i int) string { return fmt.Sprintf("f%d", i) }
 
@@ -782,6 +786,54 @@ func (g *gen) genFailing(name, kind string) []Frame {
 		l, c := w.mark()
 		w.s("(a = 1, *[2]))" + tail)
 		out = fr(l, c)
+	case "dictkey": // unhashable key in a dict literal: reported at the ':' of that entry
+		w.s(ind + "return ")
+		g.openParenAndMove()
+		w.s("{x: 1, [x]")
+		w.sp(r.Intn(3))
+		l, c := w.mark()
+		w.s(": 2})" + tail)
+		out = fr(l, c)
+	case "compiterate": // iterating a non-iterable in a comprehension: reported at its 'for'
+		w.s(ind + "return ")
+		g.openParenAndMove()
+		w.s("[q ")
+		w.sp(r.Intn(3))
+		l, c := w.mark()
+		w.s("for q in x])" + tail)
+		out = fr(l, c)
+	case "percent":
+		w.s(ind + "return ")
+		g.openParenAndMove()
+		w.s("y ")
+		l, c := w.mark()
+		w.s("% t)" + tail)
+		out = fr(l, c)
+	case "notin":
+		w.s(ind + "return ")
+		g.openParenAndMove()
+		w.s("y ")
+		l, c := w.mark()
+		w.s("not in x)" + tail)
+		out = fr(l, c)
+		out[0].ColMax = c + 4 // the column of "in"
+	case "default": // a failing default-value expression is evaluated in the enclosing function
+		w.s(ind + "def inner(a = ")
+		g.openParenAndMove()
+		w.s("x ")
+		l, c := w.mark()
+		w.s("// (x - x))):\n")
+		w.s(ind + "    return a\n")
+		w.s(ind + "return inner()\n")
+		out = fr(l, c)
+	case "methodcall": // a built-in method rejects its argument: the call's '(' plus the built-in's frame
+		w.s(ind + "return ")
+		g.openParenAndMove()
+		w.s("y.join")
+		w.sp(r.Intn(3))
+		l, c := w.mark()
+		w.s("([x]))" + tail)
+		out = append(fr(l, c), Frame{Name: "join", File: "<builtin>"})
 	case "argbind": // the callee rejects its arguments: innermost frame is the callee, position unspecified here
 		w.s(ind + "return ")
 		g.openParenAndMove()
@@ -816,6 +868,8 @@ func expectedBacktraceLines(fs []Frame) (lines []string, suffix string) {
 			lines = append(lines, fmt.Sprintf("  <builtin>: in %s", f.Name))
 		case f.Line < 0:
 			lines = append(lines, "") // unspecified
+		case f.ColMax > f.Col:
+			lines = append(lines, "") // a range of columns: compared frame by frame, not as text
 		default:
 			lines = append(lines, fmt.Sprintf("  %s:%d:%d: in %s", progFile, f.Line, f.Col, f.Name))
 		}
@@ -977,7 +1031,7 @@ type tstmt struct {
 func runTrace(seed uint64, i int) TraceCase {
 	r := hx.NewRand(seed*3000017 + uint64(i)*15485863 + 11)
 	tc := TraceCase{Kind: "trace", Seed: seed, I: i}
-	nf := 1 + r.Intn(6)
+	nf := 1 + r.Intn(8)
 	probeID := nf + 1
 	tc.Names = append(tc.Names, "<toplevel>")
 	for k := 1; k <= nf; k++ {
